@@ -331,7 +331,8 @@ pub fn scenarios(thorough: bool) -> Vec<Scenario> {
     v.push(pair_conflict_scenario("pair-conflict-cold", 5, 11, if thorough { &[1, 2, 3] } else { &[2, 3] }, if thorough { 5 } else { 4 }, &[Op::Reopen(0), Op::Reopen(1)]));
     v.push(emptied_scenario("pair-array-emptied-in-one-step-vs-insert", 1, if thorough { 4 } else { 3 }, &[]));
     v.push(emptied_scenario("pair-array-emptied-in-two-steps-vs-insert", 2, if thorough { 4 } else { 3 }, &[]));
-    v.extend(cross_scenarios(thorough));
+    // depth 2 in both tiers: every pair of operations from every prepared state
+    v.extend(cross_scenarios_depth(2));
     v
 }
 
